@@ -282,6 +282,20 @@ Definition same_strands (r a : loc) : bool :=
   match a with [] => true | p :: _ => forallb (fun q => pst q =? pst p) r end.
 Definition rotated_bases (N off : Z) (r a : loc) : bool :=
   forallb (fun x => Bool.eqb (in_loc ((x + off) mod N) r) (in_loc x a)) (zrange 0 N).
+(* the bases of a location in TRANSCRIPTION order: exons as listed, each exon ascending, or descending on the
+   reverse strand (a location is an ordered list of exons; location_bridges_origin, split_origin_bridging_location,
+   connect_locations, Record.extend_location and the sort key of Feature.__lt__ all read the order) *)
+Fixpoint zdown_n (b : Z) (n : nat) : list Z :=
+  match n with O => [] | S m => (b - 1) :: zdown_n (b - 1) m end.
+(* the integers b-1, b-2, ..., b-n *)
+Definition zdown (b n : Z) : list Z := zdown_n b (Z.to_nat n).
+Definition tx_bases (l : loc) : list Z :=
+  if lstrand l =? -1 then flat_map (fun p => zdown (pe p) (pe p - ps p)) l
+  else flat_map (fun p => zrange (ps p) (pe p - ps p)) l.
+(* "shifting by an offset rotates the same bases": also as a sequence - the k-th transcribed base of the result is
+   the rotated k-th transcribed base of the input (insensitive to where exon boundaries between touching exons are) *)
+Definition rotated_tx (N off : Z) (r a : loc) : bool :=
+  list_eqb Z.eqb (tx_bases r) (map (fun x => (x + off) mod N) (tx_bases a)).
 Definition check_offset_ring (N : Z) (a : loc) (off : Z) (out : res loc) : Z :=
   match out with
   | Err _ => 1
@@ -291,6 +305,7 @@ Definition check_offset_ring (N : Z) (a : loc) (off : Z) (out : res loc) : Z :=
     else if negb (llen r =? llen a) then 4
     else if negb (same_strands r a) then 5
     else if negb (rotated_bases N off r a) then 6
+    else if negb (llen a =? N) && negb (rotated_tx N off r a) then 7   (* a whole-record location is returned as it is *)
     else 0
   end.
 Definition check_offset_line (a : loc) (off : Z) (out : res loc) : Z :=
@@ -346,6 +361,53 @@ Definition extend_class (a : loc) (d N : Z) (circ : bool) : Z :=
   else if end_pt a <=? start_pt a
        then (if N <? end_pt a - start_pt a + N + 2 * d then 1 else 0)
        else 0.
+
+(* recorded finding classes of offset_location with a wrap point (bit mask):
+   1 (offset_merge_drops_part) = the final merge loop meets a touching pair of parts directly after a touching pair
+       (`merged[-1] = FeatureLocation(previous.start, part.end)` with `previous` the last RAW part, not the merged
+       one): the first part of the run is lost;
+   2 (offset_reverse_wrap_order) = reverse strand, and a shifted exon is split at the wrap point (emitted as
+       [s,N) then [0,e), the forward order) or two touching raw parts are merged in listed order: the bases are
+       right, the transcription order is not (the result is no longer recognised as crossing the origin). *)
+Definition offset_raw_parts (a : loc) (off N : Z) : list part :=
+  flat_map (fun p =>
+      let s := (ps p + off + N) mod N in
+      let e := (pe p + off - 1 + N) mod N + 1 in
+      if (0 <=? s) && (s <? e) && (e <=? N) then [mkPart s e (pst p)]
+      else [mkPart s N (pst p); mkPart 0 e (pst p)]) a.
+Fixpoint touching_run (l : list part) : bool :=
+  match l with
+  | p :: ((q :: r :: _) as t) => ((pe p =? ps q) && (pe q =? ps r)) || touching_run t
+  | _ => false
+  end.
+Fixpoint touching_pair (l : list part) : bool :=
+  match l with
+  | p :: ((q :: _) as t) => (pe p =? ps q) || touching_pair t
+  | _ => false
+  end.
+Definition offset_nontrivial (a : loc) (off N : Z) : bool :=
+  negb (off =? 0) && (1 <=? N) && negb (llen a =? N) &&
+  negb ((0 <=? lstart a + off) && (lstart a + off <? lend a + off) && (lend a + off <=? N)).
+Definition offset_class (a : loc) (off : Z) (w : option Z) : Z :=
+  match w with
+  | Some N =>
+    if negb (offset_nontrivial a off N) then 0 else
+    let raw := offset_raw_parts a off N in
+    (if touching_run raw then 1 else 0) +
+    (if (lstrand a =? -1) && (negb (Z.of_nat (length raw) =? Z.of_nat (length a)) || touching_pair raw) then 2 else 0)
+  | None => 0
+  end.
+
+(* ---- location_bridges_origin(location, allow_reversing=True): the answer and the argument afterwards ----
+   documented: a reverse-strand location in the alternate exon order whose reversed order is a valid
+   non-bridging one is left reversed and reported as not bridging; otherwise "swap back so it will be reported
+   as it was".  Clause 1: reported as bridging but the argument was changed; 2: the argument was changed into
+   something else than its reversal, or the reversal is not a valid order; 3: the answer itself *)
+Definition check_bridges_reversing (a : loc) (ans : bool) (a' : loc) : Z :=
+  if negb (Bool.eqb ans (bridges a && negb ((lstrand a =? -1) && negb (bridges (rev a))))) then 3
+  else if ans then (if loc_eqb a' a then 0 else 1)
+  else if loc_eqb a' a then 0
+  else if loc_eqb a' (rev a) && (lstrand a =? -1) && negb (bridges a') then 0 else 2.
 
 Definition verdict (pre : bool) (clause : Z) : list Z :=
   if negb pre then [2] else if clause =? 0 then [1] else if clause <? 0 then [2] else [0; clause].
@@ -519,6 +581,17 @@ Definition run_call (fn : Z) (l : list Z) : list Z :=
              match dList (dList dZ) o with
              | Some (outs, []) => verdict (nonempty locs) (if all_same outs then 0 else 7)
              | _ => bad_input end
+           | _ => bad_input end
+  (* payload = a ++ implementation output (answer ++ the argument afterwards) *)
+  | 119 => match dLoc l with
+           | Some (a, o :: r) =>
+             match dLoc r with
+             | Some (a', []) => verdict true (check_bridges_reversing a (negb (o =? 0)) a')
+             | _ => match o :: r with [-1; _] => [0; 3] | _ => bad_input end
+             end
+           | _ => bad_input end
+  | 207 => match dPair (dPair dLoc dZ) dWrap l with
+           | Some ((a, off, w), _) => [offset_class a off w]
            | _ => bad_input end
   | 208 => match dPair (dPair dLoc dZ) (dPair dZ dBool) l with
            | Some ((a, d, (m, c)), _) => [extend_class a d m c]
